@@ -534,6 +534,14 @@ func genOp0(r *common.Rng, e *env) []string {
 			dataToks = append(dataToks, common.PinTok(p))
 		}
 	}
+	// round 8c: a pin object WITHOUT a cid (cid.Undef, token "-"): plain (what a broken client sends) or typed with
+	// preset allocations; pin()'s guard must refuse it and nothing may be stored under the undefined cid
+	if r.Chance(1, 45) {
+		if r.Bool() {
+			return []string{"rpcpin", plainPin("-", strings.Join(randOpts(r, e.w), "/"))}
+		}
+		return []string{"rpcpin", fmt.Sprintf("-/%s/1:2/1/r/%s/500/%s/z/-/-/-/-/-", string("dsm"[r.Intn(3)]), []string{"-1", "1"}[r.Intn(2)], randList(r, len(e.w.peers), 40))}
+	}
 	x := r.Intn(100)
 	switch {
 	case x < 22: // fresh random pin
